@@ -60,7 +60,7 @@ def with_dups(rng, t):
 
 class Prop(BaseProp):
     def case_random(self, rng):
-        keys = rng.sample(['a', 'b', 'c', 'mit', 'gpl 2.0', 'x'], rng.randint(2, 4))
+        keys = rng.sample(['a', 'b', 'c', 'mit', 'gpl 2.0', 'x', 'A', 'MIT', 'GPL 2.0'], rng.randint(2, 5))     # keys that differ by letter case only are different licenses
         # one case in six: the same key with and without the exception flag in one tree (objects of two Licensings):
         # operands that render alike without being equal; the rule of the property goes by the rendering
         collide = rng.random() < 0.17
